@@ -10,12 +10,15 @@
 //	                           endpoints; H = log|log|…, log = type;blockN;tx;logIndex;v1;v2;… (ABI values in ABI order);
 //	                           S = stream/stream/…, one per endpoint, items <logno> or <logno>r (removed re-emission);
 //	                           drop = - or e@pos (endpoint e loses its connection after pos items)
+//	                           optional 7th field S2 = stream/stream/…: what the endpoints emit AFTER the failure was
+//	                           reported and handled the way dosnode.onchainLoop handles it (DisconnectWs(err.Idx))
 //	ent <log> <removed>        one table entry alone (hook) on a websocket endpoint: the LogCommon it builds
 package c18
 
 import (
 	"context"
 	"encoding/binary"
+	"errors"
 	"fmt"
 	"math/big"
 	"os"
@@ -458,6 +461,18 @@ func execSub(w []string) (res h.Result) {
 		p := strings.Split(w[5], "@")
 		dropE, dropPos = h.Atoi(p[0]), h.Atoi(p[1])
 	}
+	// what the endpoints emit after the failure has been reported and handled
+	S2 := make([][]sitem, nws)
+	if len(w) > 6 {
+		for e, ss := range strings.Split(w[6], "/") {
+			if ss != "-" && e < nws {
+				for _, it := range strings.Split(ss, ",") {
+					r := strings.HasSuffix(it, "r")
+					S2[e] = append(S2[e], sitem{h.Atoi(strings.TrimSuffix(it, "r")), r})
+				}
+			}
+		}
+	}
 
 	st, err := chaindouble.NewStack(1, nws, big.NewInt(1), 5000000, 1000000000, nil)
 	if err != nil {
@@ -474,46 +489,51 @@ func execSub(w []string) (res h.Result) {
 			return
 		}
 	}
-	nerr := 0
-	var emu sync.Mutex
-	go func() {
-		for range errc {
-			emu.Lock()
-			nerr++
-			emu.Unlock()
-		}
-	}()
-	// expected markers: every type on every endpoint that stays connected
-	pending := map[[2]int]bool{}
-	for e := 0; e < nws; e++ {
-		if e == dropE {
-			continue
-		}
-		for _, t := range typesL {
-			pending[[2]int{e, t}] = true
-		}
+	if dropE < 0 {
+		go func() {
+			for range errc {
+			}
+		}()
 	}
 	var delivered []string
-	finished := make(chan string, 1)
+	var dmu sync.Mutex
+	markers := make(chan [2]int, 256)
 	go func() {
-		if len(pending) == 0 {
-			finished <- "ok"
-			return
-		}
 		for v := range events {
 			if m, e, t := isMarker(v); m {
-				delete(pending, [2]int{e, t})
-				if len(pending) == 0 {
-					finished <- "ok"
-					return
-				}
+				markers <- [2]int{e, t}
 				continue
 			}
 			_, _, s := render(v)
+			dmu.Lock()
 			delivered = append(delivered, s)
+			dmu.Unlock()
 		}
-		finished <- "closed"
+		close(markers)
 	}()
+	emit := func(e int, items []sitem, dropAt int, end bool) {
+		ep := st.WS[e]
+		for pos, it := range items {
+			if pos == dropAt {
+				ep.DropConnections()
+				return
+			}
+			ep.Emit(H[it.log].raw(st, it.removed))
+		}
+		if dropAt >= 0 {
+			ep.DropConnections()
+			return
+		}
+		if end {
+			for _, t := range typesL {
+				sp := specOf(t)
+				m := &hlog{spec: sp, blockN: 9000000 + uint64(e), tx: int64(1000000 + e*32 + t), index: 0}
+				m.data = pack(sp, markerVals(sp, e))
+				ep.Emit(m.raw(st, false))
+			}
+		}
+	}
+	// phase 1: all endpoints concurrently; the failing one drops its connections at its position
 	var wg sync.WaitGroup
 	start := make(chan struct{})
 	for e := 0; e < nws; e++ {
@@ -521,40 +541,108 @@ func execSub(w []string) (res h.Result) {
 		go func(e int) {
 			defer wg.Done()
 			<-start
-			ep := st.WS[e]
-			for pos, it := range S[e] {
-				if e == dropE && pos == dropPos {
-					ep.DropConnections()
-					return
-				}
-				ep.Emit(H[it.log].raw(st, it.removed))
-			}
 			if e == dropE {
-				ep.DropConnections()
-				return
-			}
-			for _, t := range typesL {
-				sp := specOf(t)
-				m := &hlog{spec: sp, blockN: 9000000 + uint64(e), tx: int64(1000000 + e*32 + t), index: 0}
-				m.data = pack(sp, markerVals(sp, e))
-				ep.Emit(m.raw(st, false))
+				emit(e, S[e], dropPos, false)
+			} else {
+				emit(e, S[e], -1, dropE < 0)
 			}
 		}(e)
 	}
 	close(start)
 	wg.Wait()
-	status := ""
-	select {
-	case status = <-finished:
-	case <-time.After(60 * time.Second):
-		status = "timeout"
+	status := "ok"
+	var reported []int
+	disconnected := map[int]bool{}
+	if dropE >= 0 {
+		// the consumer of dosnode.onchainLoop: every *OnchainError read from the error channel is answered
+		// with DisconnectWs(err.Idx).  Every subscription of the failed endpoint reports one error.
+	L:
+		for len(reported) < len(typesL) {
+			select {
+			case err, ok := <-errc:
+				if !ok {
+					status = "errors-closed"
+					break L
+				}
+				var oe *onchain.OnchainError
+				idx := -1
+				if errors.As(err, &oe) {
+					idx = oe.Idx
+				}
+				reported = append(reported, idx)
+			case <-time.After(60 * time.Second):
+				status = "errors-missing"
+				break L
+			}
+		}
+		for _, idx := range reported {
+			if idx >= 0 && idx < nws {
+				st.Adaptor.DisconnectWs(idx)
+				disconnected[idx] = true
+			}
+		}
+		go func() {
+			for range errc {
+			}
+		}()
+		// phase 2: the surviving endpoints go on
+		for e := 0; e < nws; e++ {
+			if e == dropE {
+				continue
+			}
+			wg.Add(1)
+			go func(e int) {
+				defer wg.Done()
+				emit(e, S2[e], -1, true)
+			}(e)
+		}
+		wg.Wait()
 	}
+	// end markers are awaited from every endpoint the consumer has not disconnected
+	pending := map[[2]int]bool{}
+	for e := 0; e < nws; e++ {
+		if e == dropE || disconnected[e] {
+			continue
+		}
+		for _, t := range typesL {
+			pending[[2]int{e, t}] = true
+		}
+	}
+	timeout := time.After(60 * time.Second)
+	for len(pending) > 0 && status == "ok" {
+		select {
+		case m, ok := <-markers:
+			if !ok {
+				status = "closed"
+			} else {
+				delete(pending, m)
+			}
+		case <-timeout:
+			status = "timeout"
+		}
+	}
+	dmu.Lock()
+	defer dmu.Unlock()
 	sort.Strings(delivered)
 	out := "-"
 	if len(delivered) > 0 {
 		out = strings.Join(delivered, "|")
 	}
 	res.Impl = "out " + out
+	if dropE >= 0 {
+		var rs []string
+		for _, r := range reported {
+			rs = append(rs, fmt.Sprint(r))
+		}
+		sort.Strings(rs)
+		res.Impl += " errs=" + strings.Join(rs, ",")
+		// (a) every report names the endpoint that actually failed: the node disconnects what is reported
+		for _, r := range reported {
+			if r != dropE && res.Oracle == "" {
+				res.Oracle = fmt.Sprintf("error-report-wrong-endpoint: endpoint %d failed, one of its subscriptions reported Idx %d; the node answers with DisconnectWs(%d)", dropE, r, r)
+			}
+		}
+	}
 	if status != "ok" {
 		res.Impl += " status=" + status
 		if res.Oracle == "" {
@@ -581,6 +669,19 @@ func execSub(w []string) (res h.Result) {
 					}
 				} else {
 					req = true
+				}
+			}
+		}
+		for e := range S2 {
+			if e == dropE {
+				continue
+			}
+			for _, it := range S2[e] {
+				if it.log == j {
+					any = true
+					if !it.removed {
+						req = true // (b) emitted by a surviving endpoint after the failure: must still be delivered
+					}
 				}
 			}
 		}
